@@ -27,6 +27,10 @@ def DEC2HEX(dec, places=DEFAULT):
             return places
         if places < 0:
             return error.NUM
+    if isinstance(dec, float):
+        dec = int(dec)  # a computed number (510/2) is a float; hex() needs an integer
+    if isinstance(places, float):
+        places = int(places)
     if dec < -549755813888 or dec >= 549755813888:
         return error.NUM  # outside the 40-bit two's-complement range
     if dec < 0:
